@@ -118,7 +118,7 @@ PROPS = {
     "C10": {
         "level": "proof",
         "lean_modules": ["RaftVerif.Properties.C10"],
-        "engines": [E4("snap", 40, 400), E4("crash", 30, 300), E4D("S9-snapshot-overlaps-apply,S20-snapshot-chunk-mixing")],
+        "engines": [E4("snap", 40, 400), E4("crash", 30, 300), E4D("S9-snapshot-overlaps-apply,S20-snapshot-chunk-mixing,S20-mixed-chunks-unparsable")],
         "explanation": "PARTIAL proof. Machine-checked on the model (Model/Snapshot.lean, Properties/C10.lean): the apply step keeps 'state machine = fold of exactly the operation entries of the log up to the applied index' (configuration and no-op entries contribute nothing, every operation entry exactly once, in order); a snapshot whose label and content are read in one step is exact; the label is the applied index and the term of that entry. The real takeSnapshot reads the label and the content in two steps with the apply loop free to run in between: the property is FALSE of the code there (Lean witness C10_counterexample_apply_between_label_and_content; known finding S9, replayed on the real code as a directed schedule) and for snapshots received with mixed chunks (S20). Search and tie: " + CLUSTER_NOTE + "; every snapshot file that ever becomes visible on any node or crash image is parsed (the recording state machine serialises the list of applied indices with a hash chain) and compared with the committed sequence up to its label; violations with another pattern than the two known ones are reported.",
         "assumptions": ["known findings S9 (content-beyond-label) and S20 (content-behind-label), see known_findings.json",
                         "the state machine is the harness's recording machine (deterministic, serialises its full history)"],
@@ -126,8 +126,8 @@ PROPS = {
     "C11": {
         "level": "proof",
         "lean_modules": ["RaftVerif.Properties.C11"],
-        "engines": [E3_IS, E4("snap", 40, 400), E4D("S20-snapshot-chunk-mixing")],
-        "explanation": "PARTIAL proof. Machine-checked on the three-phase model of InstallSnapshot (enter / wait for the apply loop / restore, exactly the lock structure of the code): a request that is not newer than the node's boundary or applied index changes nothing but term/role/contact; the first phase never touches log, commit or applied index; restore adopts exactly the label (boundary, commit, applied all equal to it, never below the old values) and keeps the log suffix after the label when the log agrees with the label, drops the whole log otherwise; for an honest chunk stream (one snapshot, offsets in order) the received file is exactly the sent bytes (C11_chunks_exact_partial). The unrestricted chunk statement is FALSE of the code (Lean witness C11_counterexample_chunk_mixing, known finding S20: a chunk of another snapshot at the expected offset is accepted). Tie: E3-install (request sequences over the C11 domain vs. the real handler, then AppendEntries/RequestVote probes around the boundary on both), " + CLUSTER_NOTE,
+        "engines": [E3_IS, E4("snap", 40, 400), E4D("S20-snapshot-chunk-mixing,S20-mixed-chunks-unparsable")],
+        "explanation": "PARTIAL proof. Machine-checked on the three-phase model of InstallSnapshot (enter / wait for the apply loop / restore, exactly the lock structure of the code): a request that is not newer than the node's boundary or applied index changes nothing but term/role/contact; the first phase never touches log, commit or applied index; restore adopts exactly the label (boundary, commit, applied all equal to it, never below the old values) and keeps the log suffix after the label when the log agrees with the label, drops the whole log otherwise; for an honest chunk stream (one snapshot, offsets in order) the received file is exactly the sent bytes (C11_chunks_exact_partial). Cluster level (Proofs/ReplSnapshot.lean): on the replication-layer model of C01 the installation of the snapshot (i, leader's log up to i <= its commit index) at any other node whose term is not ahead is exactly two steps of that model (the request 'previous index 0, entries 1..i' built and accepted: C11_install_is_replication, via install_eq_merge under log matching), so the state after it is reachable and every later state satisfies state-machine safety with it; the installed log starts with the snapshot's prefix (C11_install_preserves_safety); a compaction is invisible at that level given exact snapshots (C10). The unrestricted chunk statement is FALSE of the code (Lean witness C11_counterexample_chunk_mixing, known finding S20: a chunk of another snapshot at the expected offset is accepted). Tie: E3-install (request sequences over the C11 domain vs. the real handler, then AppendEntries/RequestVote probes around the boundary on both), " + CLUSTER_NOTE,
         "assumptions": ["known finding S20 (see known_findings.json)", "the apply loop is idle while phase C runs (the code waits for it)"],
     },
     "C14": {
